@@ -121,6 +121,8 @@ def pworld (inits : List Init) : World M PV where
   unstar _ := throw "TypeError"
   format _ := throw "TypeError"
   concat _ := throw "TypeError"
+  dict _ := throw "TypeError"
+  whileLoop _ _ _ := throw "Unsupported"
   other s := if s == "{}" then pure .cfg else throw "Unsupported"
   throw cls := throw cls
   rethrow := throw "reraise"
